@@ -186,6 +186,10 @@ def native_driver(sanitize=True):
             if p_.returncode != 0:
                 sys.stderr.write(se[-3000:])
                 raise RuntimeError('native driver build failed: ' + ' '.join(cmd[:4]))
+        if build.file_hash(src, extra=build.repo_hash() + str(sanitize)) != key:
+            for o in objs:
+                os.remove(o)
+            raise RuntimeError('the source tree %s changed during the build of the replay driver; nothing was cached' % build.REPO)
         build.sh(['g++'] + flags + objs + ['-lgsl', '-lgslcblas', '-lm', '-o', out])
         for o in objs:
             os.remove(o)
